@@ -22,18 +22,22 @@
     hyphenate_format / hyphenate_writes(_braille)   format and write range for ANY automaton, both modes
     hyphenate_braille_format_partial                braille mode format, given inputPos < inlen (C07)
 
-  The unrestricted statement is FALSE of the code; the three hypotheses are forced:
-    * `WFPats`, clause 2 — a digit in front of a leading '.' (`1.a`): hyphenateWord computes
-      patternOffset = −1 and reads/writes hyphens[−1] (finding F5): `f5_negative_offset`.
-    * `WFPats`, clause 1 — a digit-only line (`1`): compileHyphenation stores its digit as the
-      pattern of state 0, which hyphenateWord never consults (state 0 is only entered through
+  The unrestricted statement is FALSE of the code; two hypotheses remain forced:
+    * `WFPats` — no digit-only line (`1`): compileHyphenation stores its digit as the pattern of
+      state 0, which hyphenateWord never consults (state 0 is only entered through
       `goto nextLetter`), while by the property the empty suffix is a pattern and contributes at
       every point: `digit_only_line_ignored`.
     * `FitsStates` — state numbers are stored in 32-bit fields and 0xffffffff doubles as "not found"
       in hyphenHashLookup and as the fallback of state 0, so the dictionary must compile to at most
       0xffffffff states.  (Until liblouis commit 5522f21e the fields were 16 bit wide and
-      hyph_hu_HU.dic, 138663 states, got truncated state numbers; this development found that
-      independently and the check keeps the signature `C17:state-number-overflow`.)
+      hyph_hu_HU.dic, 138663 states, got truncated state numbers; the check keeps the signature
+      `C17:state-number-overflow`.)
+  No longer a hypothesis: a digit in front of a leading '.' (`1.a`, finding F5).  Until liblouis
+  commit 0c404269 hyphenateWord computed patternOffset = −1 for it and read/wrote hyphens[−1]; the
+  loop now starts at k = −patternOffset, the digit has no position in the word — which is what
+  `specDigits` says anyway (positions are 0 … n−1) — and `hyph_refines_spec` covers such
+  dictionaries (`leading_digit_dot_in_range`); `applyPat_spec` shows for ANY pattern string that
+  no negative index is touched.
 -/
 import LouModel.Hyph
 import LouProofs.Lemmas.Hyph
@@ -102,10 +106,9 @@ theorem hyph_fallback_correct (pats : List Pat) (hne : pats ≠ []) (fits : Fits
   obtain ⟨t, ht⟩ := ls_exists (isPatPrefix_nil hne) (keyFn (compileC pats) i).tail
   rw [b]; simp [lssD, ht]
 
-/-- the classic invariant: after reading any text `u` that starts with the leading dot, the
-    state of the walk stands for the longest suffix of `u` that is a prefix of a pattern -/
+/-- the classic invariant: after reading any text `u` the state of the walk stands for the longest suffix of `u` that is a prefix of a pattern -/
 theorem hyph_state_invariant (pats : List Pat) (hne : pats ≠ []) (wf : WFPats pats) (fits : FitsStates pats)
-    (n : Nat) (u : List Nat) (hu : u.head? = some DOT) :
+    (n : Nat) (u : List Nat) :
     let st := (walkFrom (compileDict pats) n u 0 ⟨List.replicate n 0, 0, 0, none⟩).state
     st < (compileDict pats).size ∧
     longestSuffix (isPatPrefix pats) u = some (keyFn (compileC pats) st) := by
@@ -116,7 +119,7 @@ theorem hyph_state_invariant (pats : List Pat) (hne : pats ≠ []) (wf : WFPats 
     · simp only; rw [ok.key0, lssD_nil]
     · intro q hq
       simp [specUpTo, List.getD_eq_getElem?_getD, hq]
-  have fin := walkFrom_inv ok wf n u [] _ (by simpa using hu) init
+  have fin := walkFrom_inv ok wf n u [] _ init
   simp only [List.nil_append, List.length_nil] at fin
   refine ⟨fin.st, ?_⟩
   obtain ⟨t, ht⟩ := ls_exists (isPatPrefix_nil hne) u
@@ -160,7 +163,7 @@ theorem hyph_walk_bound (pats : List Pat) (wf : WFPats pats) (fits : FitsStates 
       · simp only; rw [ok.key0, lssD_nil]
       · intro q hq
         simp [specUpTo, List.getD_eq_getElem?_getD, hq]
-    have fin := walkFrom_inv ok wf w.length (prepWord lower w) [] _ (by simp [prepWord]) init
+    have fin := walkFrom_inv ok wf w.length (prepWord lower w) [] _ init
     simp only [List.nil_append, List.length_nil] at fin
     have := fin.tk
     unfold hyphenateWalk
@@ -396,15 +399,18 @@ theorem braille_nul_overwritten :
 
 /-! ### the forced hypotheses: the unrestricted statement fails on these witnesses -/
 
-/-- F5: pattern `1.a`, word `ab` — hyphens[−1] -/
-theorem f5_negative_offset_walk :
-    (hyphenateWalk (compileDict [⟨1, [(46, 0), (97, 0)]⟩]) id [97, 98]).fault = some .negOffset := by decide
+/-- formerly F5: the pattern `1.a3` on `ab` — the `1` in front of the leading dot has no position
+    in the word and is skipped, the `3` lands in front of `b`; no out-of-range access -/
+theorem leading_digit_dot_in_range :
+    (hyphenateWalk (compileDict [⟨1, [(46, 0), (97, 3)]⟩]) id [97, 98]).fault = none ∧
+    hyphenateWord (compileDict [⟨1, [(46, 0), (97, 3)]⟩]) id [97, 98] = [0, 3] ∧
+    specDigits [⟨1, [(46, 0), (97, 3)]⟩] id [97, 98] = [0, 3] := by decide
 
-theorem f5_negative_offset :
-    hyphenateWordX (compileDict [⟨1, [(46, 0), (97, 0)]⟩]) id [97, 98] = .error .negOffset := by
-  unfold hyphenateWordX; rw [f5_negative_offset_walk]
+example : WFPats [⟨1, [(46, 0), (97, 3)]⟩] := by decide
 
-example : ¬ WFPats [⟨1, [(46, 0), (97, 0)]⟩] := by decide
+/-- hyphenateWord never touches a negative index, whatever the automaton and the pattern strings -/
+theorem hyphenateWord_no_negative_index (h : List Nat) (i : Nat) (s : List Nat) :
+    (applyPat h h.length i s).2 = false := (applyPat_spec h h.length i s rfl).1
 
 /-- a digit-only line `1` next to `a1b`: the property gives 1 at both points of `ab`, the
     code ignores the line -/
